@@ -184,7 +184,7 @@ Definition v_lead (item : Type) (g : item -> option item -> item) : sverb item (
 (* ------------------------------------------------------------------------------------------------------------ *)
 (* concrete chains for the correspondence with the real binary: a record is (marker i, value of the field z or 0);
    every verb's state is (a counter: NR for put, the count for head; the records retained: tac) *)
-Open Scope Z_scope.
+Local Open Scope Z_scope.
 Definition rec := (Z * Z)%type.
 Definition zst := (Z * list rec)%type.
 Definition z0 : zst := (0, []).
